@@ -81,6 +81,8 @@ def run(chk):
     dist_len = lambda a, b: abs(len(a) - len(b))  # noqa
     from Levenshtein import distance as levd
     dist_lev2 = lambda a, b: 2 * levd(a, b)  # noqa
+    # a real-valued distance (halves and quarters): the values must survive the trip through the worker processes
+    dist_half = lambda a, b: levd(a, b) / 2 + 0.25 * abs(len(a) - len(b))  # noqa
     from collections import Counter as _Counter
     # letter-composition distance: anagrams are at distance 0 although many edits apart (order disagrees with Levenshtein)
     dist_comp = lambda a, b: sum(((_Counter(a) - _Counter(b)) + (_Counter(b) - _Counter(a))).values())  # noqa
@@ -94,9 +96,11 @@ def run(chk):
         n_cpu = rng.choice([1, 2, 3, 4, 7, 16, n + 1, n + 3])
         comp = rng.choice([1, 2, 3, 4, 5, 7, 10, 19, 20, 25])
         mr = rng.choice([None, None, 1, 2, 3, 5])
-        mode = rng.choice(["lev", "lev", "ham", "custom", "custom-comp"])
+        mode = rng.choice(["lev", "lev", "ham", "custom", "custom-comp", "custom-half"])
         k = rng.choice([1, 2, 3])
         configs.append((xs, n_cpu, comp, mr, mode, k))
+    for ncpu_ in (2, 3):
+        configs.append((gen.repertoire(rng, 17, minlen=5, maxlen=8, allow_empty=False), ncpu_, 1, None, "custom-half", 2))
     # anagram families: close in composition, far in edits (max_returns must count TRUE neighbours only)
     for mr in (1, 2, 3):
         configs.append((["SACSD", "CASSD", "CASSE", "CASD", "ACSSD", "CASSD"], rng.choice([1, 3]), rng.choice([1, 4]), mr, "custom-comp", 1))
@@ -141,6 +145,8 @@ def run(chk):
             ops.append({"op": "brute_self", "xs": xs, **search.score_fields("custom", k, xs, dist_lev2, 4)})
         elif mode == "custom-comp":
             ops.append({"op": "brute_self", "xs": xs, **search.score_fields("custom", k, xs, dist_comp, 3)})
+        elif mode == "custom-half":
+            ops.append({"op": "brute_self", "xs": xs, **search.score_fields("custom", k, xs, dist_half, 1.5)})
         else:
             ops.append({"op": "brute_self", "xs": xs, "k": k, "mode": mode})
     specs = core.run_driver_parallel(ops)
@@ -155,6 +161,9 @@ def run(chk):
         elif mode == "custom-comp":
             kw["custom_distance"] = dist_comp
             kw["max_custom_distance"] = 3
+        elif mode == "custom-half":
+            kw["custom_distance"] = dist_half
+            kw["max_custom_distance"] = 1.5
         st, val = core.call_real(lambda: nn.kdtree(xs, **kw))
         spec = core.canon_model_trips(sp[1])
         # (the calls made just before, in the same process: a replay that holds alone is re-run after them)
